@@ -644,7 +644,15 @@ class Ev:
     def ev_assert(self, e):
         x = self.ev(e[1])
         t = self.ev(e[2])
-        return V.unbox(self.types, x, t.t)
+        r = V.unbox(self.types, x, t.t)
+        if not self.quant and self.types.kind(t.t) == 'ptr' and isinstance(x, Val) and x.lv and ('t',) in x.lv and ('p',) in x.lv:
+            # a pointer held in an interface value of this state refers to an object that exists in
+            # this state (allocated at or below its frontier): it is not an object allocated later
+            try:
+                self.st.assume(z3.Implies(x.lv[('t',)] == self.types.typeid(t.t), x.lv[('p',)] <= self.st.frontier))
+            except Exception:
+                pass
+        return r
 
     def ev_un(self, e):
         op = e[1]
